@@ -36,6 +36,7 @@ WithFail(S) == S \cup {[s EXCEPT !.sendFail = <<TRUE>>] : s \in S}
 ReqNew(tid, pull, v, sel) == [Req("New", tid) EXCEPT !.pull = pull, !.v = v, !.base = "base", !.sel = sel]
 ReqRestart(tid, pull, v, base) == [Req("Restart", tid) EXCEPT !.pull = pull, !.v = v, !.base = base, !.sel = "s"]
 AllReqs(tid, pull) == {ReqNew(tid, pull, "v0", "s"), ReqRestart(tid, pull, "v0", "base"), Req("Cancel", tid), [Req("Voucher", tid) EXCEPT !.v = "v4"],
+                       [Req("Voucher", tid) EXCEPT !.v = "v4@vtB"],    \* a later voucher of ANOTHER type than the one the channel was opened with: recorded like any other
                        [Req("Voucher", tid) EXCEPT !.v = "v3"],        \* the same voucher as the latest one of the "prog" records: recorded again (each exactly once per message)
                        [Req("Update", tid) EXCEPT !.paused = TRUE], Req("Update", tid)}
 AllResps(tid) == {Resp("New", tid, TRUE, FALSE, ""), Resp("New", tid, FALSE, FALSE, "r1"), Resp("Restart", tid, TRUE, FALSE, ""), Resp("Restart", tid, FALSE, FALSE, ""),
@@ -52,6 +53,7 @@ DataStims == {[St(k) EXCEPT !.args = [ZeroArgs EXCEPT !.delta = d[1], !.index = 
                 k \in {"OnDataQueued","OnDataSent","OnDataReceived"}, d \in {<<2, 9, TRUE>>, <<3, 9, TRUE>>, <<5, 9, TRUE>>, <<2, 3, TRUE>>, <<2, 9, FALSE>>}}
 CallbackStims == DataStims \cup {St("OnChannelOpened"), St("OnTransferInitiated"), St("OnChannelCompleted"), [St("OnChannelCompleted") EXCEPT !.args.err = "e1"],
                   [St("OnChannelCompleted") EXCEPT !.sendFail = <<TRUE>>]}
+                  \cup {[d EXCEPT !.sendFail = <<TRUE>>] : d \in {x \in DataStims : x.kind = "OnDataReceived"}}     \* the pause notice of a limit crossing cannot be sent
                   \cup {[St(k) EXCEPT !.args.err = "e1"] : k \in {"OnRequestCancelled","OnRequestDisconnected","OnSendDataError","OnReceiveDataError"}}
 ApiStims == WithFail({[St("SendVoucher") EXCEPT !.msg.v = "v4"], [St("SendVoucherResult") EXCEPT !.msg.v = "r4"], St("Pause"), St("Close"), [St("CloseErr") EXCEPT !.args.err = "e1"]})
             \cup {St("Resume")}
